@@ -78,6 +78,7 @@ def cnt_get(ex, obj, v):
 def cnt_add(ex, obj, v, delta):
     cnt = ex.path.read_field(obj, 'cnt')
     c = cnt.shape.select(cnt, v)
+    ex.path.assume(c.e >= 0)          # a multiset count (true of every list; stated where the count is updated)
     ex.path.write_field(obj, 'cnt', cnt.shape.store(cnt, v, SV(IntS, c.e + delta)))
 
 
